@@ -20,7 +20,7 @@ def corpus_cases():
     T1, T2, T3 = hist.TIMES[1], hist.TIMES[4], hist.TIMES[5]
     cases = []
     for kind in CONFIGS:
-        for variant in range(4):
+        for variant in range(5):
             c = vfx.Case("c19_direct_%s_%d" % (kind, variant))
             g = hist.build_config(c, kind, rng)
             c.cfg = g
@@ -44,6 +44,14 @@ def corpus_cases():
                 c.op("setctime", f, T1); c.op("setmtime", f, T2); c.op("setatime", f, T3); c.op("metadata", f)
                 w = c.op("createfile", f); c.op("metadata", f); c.op("hwrite", w, vfx.hexs(b"new")); c.op("hdrop", w)
                 c.op("metadata", f)
+            elif variant == 4:    # every order of two different setters: the second must leave the first one's field alone
+                hist.write_file(c, t, "f", b"content")
+                c.op("createdir", vfx.ps(t, "d"))
+                for tgt in (f, vfx.ps(t, "d")):
+                    for (k1, v1), (k2, v2) in [(("setatime", T3), ("setmtime", T2)), (("setmtime", T2), ("setatime", T3)),
+                                               (("setatime", T1), ("setctime", T2)), (("setmtime", T1), ("setctime", T3)),
+                                               (("setctime", T3), ("setmtime", T1)), (("setctime", T2), ("setatime", T1))]:
+                        c.op(k1, tgt, v1); c.op("metadata", tgt); c.op(k2, tgt, v2); c.op("metadata", tgt)
             else:                 # directories and copies
                 c.op("createdir", vfx.ps(t, "d")); c.op("setctime", vfx.ps(t, "d"), T1); c.op("setmtime", vfx.ps(t, "d"), T2)
                 hist.write_file(c, t, "d/x", b"x"); c.op("metadata", vfx.ps(t, "d"))
